@@ -296,10 +296,13 @@ func (c *VirtualTable) BestIndex(input []IndexInput, order []OrderInput) (*Index
 		desc = &a
 	}
 	if *desc {
-		out.IdxStr = "desc " + out.IdxStr
-	} else {
-		out.IdxStr = "asc  " + out.IdxStr
+		// The backward cursor of the tree library skips or fails on entries as
+		// soon as the tree has more than one level (any table larger than
+		// entries_per_node), so a descending scan silently lost rows. Scan
+		// forward and let SQLite produce the descending order.
+		out.AlreadyOrdered = false
 	}
+	out.IdxStr = "asc  " + out.IdxStr
 	dbg("BESTINDEX %+v -> %s\n", input, out.IdxStr)
 	return out, nil
 }
